@@ -203,6 +203,32 @@ def _field_indices(cfg, stmts, fn):
                 if v is None:
                     raise AnalysisError(f"{CQ}.sample_batch: branch `{short(st.test, 50)}` inside the per-field loop does not only depend on the field name (unrecognised idiom)")
                 run_body(st.body if v else st.orelse, k, kenv)
+            elif isinstance(st, ast.Match):
+                subj = _const_test(ast.Compare(left=st.subject, ops=[ast.Eq()], comparators=[ast.Constant(value=k)]), k, kenv)
+                if subj is not True:
+                    raise AnalysisError(f"{CQ}.sample_batch: `match {short(st.subject, 30)}` inside the per-field loop is not a match on the field name (unrecognised idiom)")
+
+                def _pat(p_):
+                    if isinstance(p_, ast.MatchValue) and isinstance(p_.value, ast.Constant):
+                        return p_.value.value == k
+                    if isinstance(p_, ast.MatchOr):
+                        rs = [_pat(x_) for x_ in p_.patterns]
+                        return None if any(r_ is None for r_ in rs) else any(rs)
+                    if isinstance(p_, ast.MatchAs) and p_.pattern is None:
+                        return True
+                    return None
+                chosen = None
+                for case_ in st.cases:
+                    r_ = _pat(case_.pattern) if case_.guard is None else None
+                    if r_ is None:
+                        raise AnalysisError(f"{CQ}.sample_batch: case pattern `{short(case_.pattern, 40)}` inside the per-field loop is not a constant field name (unrecognised idiom)")
+                    if r_:
+                        chosen = case_
+                        break
+                if chosen is not None:
+                    run_body(chosen.body, k, kenv)
+            elif isinstance(st, (ast.For, ast.While, ast.Try, ast.With)):
+                raise AnalysisError(f"{CQ}.sample_batch: `{short(st, 50)}` inside the per-field loop (unrecognised idiom)")
             elif isinstance(st, ast.Assign) and len(st.targets) == 1:
                 t = st.targets[0]
                 ix = _gather_index(st.value)
